@@ -118,3 +118,18 @@ Definition expected_cache_fields : list string := ["mu:sync.Mutex"; "packages:ma
 Definition expected_codec_pkg_vars : list string := ["Global:call:NewCodec"; "errInvalidUTF8:call:errors.New"].
 Definition expected_reflect_pkg_vars : list string := [].
 Definition expected_schema_pkg_vars : list string := ["floatKinds:map"; "intKinds:map"; "wellKnownStringPatterns:map"].
+
+(* every function of lib/j5schema that writes a schema map or a To field: the methods of
+   *SchemaCache (under the lock), the three placeholder sites of the on-demand builder
+   (called with the lock held), and the builders of private SchemaSets (SchemaSetFromFiles,
+   messageSchema, the SchemaSet methods, buildSchemas of schema_from_desc.go), which never
+   see a SchemaCache *)
+Definition expected_schema_writers : list string := [
+  "schema_cache.go:Schema:delete:Schemas"; "schema_cache.go:refTo:write:Schemas";
+  "schema_cache.go:referencePackage:write:packages"; "schema_cache.go:schemaLocked:write:Schemas";
+  "schema_cache.go:schemaLocked:write:To";
+  "schema_from_desc.go:buildSchemas:write:Schemas"; "schema_from_desc.go:buildSchemas:write:To";
+  "schema_from_proto.go:SchemaSetFromFiles:write:To"; "schema_from_proto.go:buildEnumFieldSchema:write:To";
+  "schema_from_proto.go:buildMessageFieldSchema:write:To"; "schema_from_proto.go:messageProperties:write:To";
+  "schema_from_proto.go:messageSchema:write:Schemas"; "schema_from_proto.go:messageSchema:write:To";
+  "schema_set.go:refTo:write:Schemas"; "schema_set.go:referencePackage:write:Packages"].
